@@ -1106,6 +1106,7 @@ def workbook_case(seed, idx, out, model_ok, ops, pend, tmpdir):
                  key="escape:" + impl["ending"]["escaped"])
         return
     stopped = False
+    dirty = False
     for sname, st, t, d in plan:
         if stopped:
             break
@@ -1114,8 +1115,10 @@ def workbook_case(seed, idx, out, model_ok, ops, pend, tmpdir):
         defective = n_defects(t, d) > 0
         if to != "cellgrid" and offset_clash(t, d, mk):
             out.count("custom replacement without the column's UTC offset: located refusal or table accepted")
-            if key not in impl["tables"] and tracker == "raising" and [sname, st] in impl["issues"]:
-                stopped = True
+            if key not in impl["tables"]:
+                dirty = True                # a refused block's messages stay in the shared fixer: the next slice holds them
+                if tracker == "raising" and [sname, st] in impl["issues"]:
+                    stopped = True
             continue
         if to == "cellgrid":
             if key not in impl["tables"]:
@@ -1152,12 +1155,13 @@ def workbook_case(seed, idx, out, model_ok, ops, pend, tmpdir):
             return
         fxs = None
         if snap is not None:
-            fxs = dict(snap, n_msgs_delta=None if strict else len(snap["new_msgs"]))
+            fxs = dict(snap, n_msgs_delta=None if (strict or dirty) else len(snap["new_msgs"]))
         if not check_lenient_table(table_view(val, to), table_view(base["blocks"][0]["val"], to), t, d, rep, fxs, out, c):
             return
-        if snap is not None and not strict and not expect_message_names_defects(
+        if snap is not None and not strict and not dirty and not expect_message_names_defects(
                 snap["new_msgs"], t, d, out, c, what="the fixer's message log of a lenient read"):
             return
+        dirty = False
     # ---- model: every sheet is one parse_blocks call; the read stops at the first sheet that raises
     if model_ok:
         for sname, _ in sheets:
